@@ -48,7 +48,7 @@ def _soft():
 def _any():
     from vf import recovery_kit as K
 
-    return K.st_case(min_points=1, kinds=("pipeline", "scatter", "diamond"))
+    return K.st_case(min_points=1, kinds=("pipeline", "scatter", "diamond"), fail_kinds=("soft", "stop", "lose"))
 
 
 async def _run(case):
@@ -170,3 +170,102 @@ async def check_stop(case, rec):
     if view.has_stop:
         rec.label("some-output-stayed-available" if any(shape.produces_files(j) and not any(j in view.unavailable(e["rid"]) for e in view.recoveries) for j in jobs) else "all-file-outputs-lost")
     _nontrivial(rec, shape, view)
+
+
+# ---- selective loss: the output directory of chosen jobs vanishes, exact prediction -------------
+
+
+def _selective():
+    from hypothesis import strategies as st
+
+    from vf import recovery_kit as K
+
+    scatter = st.fixed_dictionaries(
+        {
+            "kind": st.just("scatter"), "width": st.sampled_from([2, 3, 5, 11, 12, 13, 13]), "pre": st.sampled_from([0, 1, 1]),
+            "inner": st.integers(1, 2), "post": st.just(1), "token": st.just("file"), "ndep": st.sampled_from([1, 1, 2]),
+        }
+    )
+    diamond = st.fixed_dictionaries(
+        {"kind": st.just("diamond"), "branches": st.lists(st.integers(1, 2), min_size=2, max_size=4), "token": st.sampled_from(["file", "list"]), "ndep": st.sampled_from([1, 2])}
+    )
+    pipeline = st.fixed_dictionaries({"kind": st.just("pipeline"), "n": st.integers(2, 5), "token": st.sampled_from(["file", "object"]), "ndep": st.just(1)})
+    return st.fixed_dictionaries(
+        {
+            "shape": st.one_of(scatter, scatter, scatter, diamond, pipeline),
+            "phase": st.sampled_from(["execute", "execute", "transfer"]),
+            # victims as [step index, tag index]; low tag indices and the last ones are both frequent
+            # -1 = the first step (producer of everything), -2 = the first scattered step / second step;
+            # element indices whose tags are string prefixes of others (1 vs 10..12) are frequent
+            "victims": st.lists(
+                st.one_of(
+                    st.tuples(st.integers(0, 9), st.one_of(st.integers(0, 3), st.integers(0, 12))),
+                    st.tuples(st.just(-1), st.just(0)),
+                    st.tuples(st.just(-2), st.sampled_from([1, 1, 1, 0, 2, 9, 10, 11, 12, 12])),
+                ).map(list),
+                min_size=1, max_size=6,
+            ),
+            "schedule": K.st_schedule(),
+            "wait_order": st.sampled_from([0, 0, 1, 2, 3]),
+        }
+    )
+
+
+@prop.given("selective-loss", _selective, quick=300, thorough=15000)
+@_survey
+async def check_selective(case, rec):
+    """the last job of the shape fails once while the latest output directories of some earlier jobs
+    vanish; everything else stays on disk and nothing runs concurrently, so the prediction is exact:
+    a job runs again iff it is the failed job (execute phase) or it lost its output and one of its
+    consumers runs again"""
+    from vf import recovery_kit as K
+
+    shape = K.Shape(case["shape"])
+    last = len(shape.steps) - 1
+    first_scattered = next((i for i, st_ in enumerate(shape.steps) if st_["scattered"]), min(1, last))
+    vs = [[0 if si == -1 else first_scattered if si == -2 else si, ti] for si, ti in case["victims"]]
+    plan = K.resolve_plan(shape, [[last, 0, case["phase"], "lose", 1, 0, vs]])
+    await K.baseline(case["shape"])
+    res = await K.run_scenario(case["shape"], plan, max_retries=K.safe_retries(shape, plan), schedule=case["schedule"], wait_order=case.get("wait_order", 0))
+    view = K.View(res)
+    K.classify(rec, res, view)
+    if res.deadlock is not None:
+        raise Violation(f"C18:deadlock:{view.deadlock_kind()}", f"plan {res.plan}\n{res.deadlock}")
+    if res.raised is not None:
+        raise Violation("C18:" + view.raised_kind(), f"{res.raised_msg}; plan {res.plan}; versions {res.versions}")
+    failed = plan[0]["job"]
+    victims = [v for v in plan[0].get("victims", []) if shape.produces_files(v)] if plan[0]["kind"] == "lose" else []
+    jobs = shape.jobs()
+    children = {j: [c for c in jobs if j in shape.parents_of(c)] for j in jobs}
+    rerun = {failed}
+    changed = True
+    while changed:
+        changed = False
+        for v in victims:
+            if v not in rerun and any(c in rerun for c in children[v]):
+                rerun.add(v)
+                changed = True
+    for job in jobs:
+        exp = 1 + (1 if job in rerun and (job != failed or case["phase"] == "execute") else 0)
+        got = view.starts.get(job, 0)
+        if got != exp:
+            if got > exp and job not in victims and job != failed:
+                kind = "C18:selective-loss:job-with-available-outputs-re-executed"
+            elif got > exp:
+                kind = "C18:selective-loss:lost-output-regenerated-although-not-needed"
+            else:
+                kind = "C18:selective-loss:job-not-re-executed"
+            raise Violation(kind, f"{job} started {got} times, predicted {exp}; failed {failed} ({case['phase']}), lost outputs of {victims}; starts {view.starts}")
+    if res.output != shape.reference_output():  # (after the counts: they are the more specific verdict)
+        raise Violation("C18:" + view.output_kind(res.output, shape.reference_output()), f"{res.output!r} != {shape.reference_output()!r}; plan {res.plan}")
+    rec.label(f"victims={len(victims)}", f"rerun={min(len(rerun), 5)}")
+    if any(posixpath_tag(v) >= 10 for v in victims):
+        rec.label("lost-element-index>=10")
+    if any(posixpath_tag(j) >= 10 for j in jobs):
+        rec.label("elements>=11")
+    rec.nontrivial(len(rerun) >= 2 and any(j not in rerun for j in jobs))
+
+
+def posixpath_tag(job: str) -> int:
+    tag = job.rsplit("/", 1)[1]
+    return int(tag.split(".")[-1]) if "." in tag else 0
